@@ -228,7 +228,7 @@ func (r *runner) recvStatus(c *cli, want int) bool {
 		}
 		return false
 	}
-	closeHdr := false
+	closeHdr := resp.Close
 	for _, v := range resp.Header.Values("Connection") {
 		if strings.Contains(strings.ToLower(v), "close") {
 			closeHdr = true
